@@ -10,8 +10,9 @@ RULE = ("texts assembled from filler (words, digits, punctuation, new lines, non
         "pieces: valid v2/v3/v4 vectors (delimited or glued to class characters), near-valid edits, repeated vectors, "
         "other spellings of the same vector, 25/26-character runs, bogus CVSS:3.x prefixes; oracle: no exception, "
         "every result built from a substring valid for its class, every delimited valid v2/v3 vector returned, no two "
-        "results equal; model-vs-code on the result set; distinct = distinct texts")
-ASSUMPTIONS = ["results are compared as sets (the library returns list(set))"]
+        "results equal; model-vs-code on the result set; distinct = distinct texts"
+        " + runs of optional-only fields (no base metric); LONG texts (4 KiB .. 256 KiB) with a full-length v3 vector at every offset around a power of two; the ORDER of the result (first occurrence) as auxiliary tie")
+ASSUMPTIONS = ["C13 itself says nothing about the order of the result: the primary tie compares sets, the order (first occurrence since repo fix 9402f24, required by C19/C20) is tied as auxiliary correspondence"]
 
 CLASS = set("ABCDEFGHIJKLMNOPQRSTUVWXYZabcdefghijklmnopqrstuvwxyz:/")
 FILLER = ["the", "score", "is", "CVE-2024-1234", "(", ")", ",", ".", " ", "\n", "  ", "7.5", "CVSS", "v3", "base:", "vector=", "see",
